@@ -8,6 +8,7 @@ rp = os.path.join(HERE, 'seeded', 'RESULTS.json')
 res = json.load(open(rp)) if (only and os.path.exists(rp)) else {}
 for m in sorted(glob.glob(os.path.join(HERE, 'seeded', '*', 'meta.json'))):
     d = json.load(open(m)); sid = d['id']
+    if d.get('obsolete'): print(sid, 'skipped (obsolete: the change no longer breaks the property on the repaired tree)'); continue
     if only and sid not in only: continue
     patch = os.path.join(os.path.dirname(m), 'patch.diff')
     if subprocess.run(['git', '-C', '/repo', 'apply', '--check', patch], capture_output=True).returncode != 0:
